@@ -18,9 +18,9 @@ PROP = dict(
          "states = distinct (K, alphabet, complex key list, real key list) reached; transitions = histories executed (each checks its last "
          "request); traces_validated_against_impl = the same executions (no separate model)",
     bounds=dict(quick="K in {1,2,4}; alphabets A,B,C,E,G: all sequences of length <= 6 over 6 letters (55986 each); J (requests on 1e308-scale data that overflow, then ordinary ones): length <= 4; D, F: length <= 5 over 10 letters; "
-                      "alphabet H (lengths 65536, 65552, 131072, 98304, prime 4099): length <= 3; alphabet I (70747 = 263*269, 66049 = 257^2, prime 100003, 2*66049, 66047, 263^2): length <= 2; long sequence 2 x 2000 requests; ASan pass depth 4",
-                thorough="J: length <= 6; alphabets A,B,C,E,G: length <= 9 (12.1M each per K); D, F: length <= 6 (1.1M each per K); H: length <= 4; I: length <= 3; long sequences 4 x 10^4; ASan pass depth 5"),
-    deadline=dict(quick=150, thorough=3000),
+                      "alphabet H (lengths 65536, 65552, 131072, 98304, prime 4099): length <= 3; alphabet I (70747 = 263*269, 66049 = 257^2, prime 100003, 2*66049, 66047, 263^2): length <= 2; alphabet K (nested composite lengths 35|105, 55|165, 15|105|165, rfft 210 over 105): length <= 5; long sequence 2 x 2000 requests; ASan pass depth 4",
+                thorough="J: length <= 6; alphabets A,B,C,E,G: length <= 9 (12.1M each per K); D, F: length <= 6 (1.1M each per K); H: length <= 4; I: length <= 3; K: length <= 7; long sequences 4 x 10^4; ASan pass depth 5"),
+    deadline=dict(quick=300, thorough=3300),
     passes=[
         dict(name="k1", cache_size=1),
         dict(name="k2", cache_size=2),
